@@ -34,7 +34,8 @@ PY_KEYWORDS = {"False", "None", "True", "and", "as", "assert", "async", "await",
                "nonlocal", "not", "or", "pass", "raise", "return", "try", "while", "with", "yield"}
 OPNAMES = {"==": "__eq__", "!=": "__ne__", "<": "__lt__", "<=": "__le__", ">": "__gt__", ">=": "__ge__", "+": "__add__",
            "-": "__sub__", "*": "__mul__", "neg": "__neg__", "[]": "__getitem__", "[]c": "__getitem__", "()": "__call__",
-           "cast": "__int__", "+=": "__iadd__"}
+           "cast": "__int__", "+=": "__iadd__", "len": "__len__"}
+CMP_OPS = ("==", "!=", "<", "<=", ">", ">=")
 
 
 def tkind(t):
@@ -87,7 +88,7 @@ def dbits(v):
 
 
 def f32(v):
-    return struct.unpack("<f", struct.pack("<f", v))[0]
+    return ctypes.c_float(v).value
 
 
 class Tr:
@@ -152,6 +153,8 @@ class Driver:
             for f in c["ctors"]:
                 self.ctor_eids[f["eid"]] = f
         self.anc = {q: self.ancestors(q) for q in self.classes}
+        self.size_eids = {f["eid"] for c in model["classes"] for f in c["methods"] if f.get("operator") == "len"}
+        self.ctxkey = None
         self.pyclass = {}
         self.pool = []
         self.live = {}       # iid -> dynamic class (from C/D events)
@@ -160,6 +163,7 @@ class Driver:
         self.destroyed_twice = []
         self.statefn = {}
         self.enum_py = {}
+        self.missing = set()
 
     # ------------------------------------------------------------------ infrastructure
     def step(self, text):
@@ -171,6 +175,8 @@ class Driver:
         self.counts[k] = self.counts.get(k, 0) + n
 
     def bad(self, key, **kw):
+        if self.ctxkey and key.split(":")[0] in ("wrong-overload", "positive-rejected", "no-typeerror", "this-mismatch", "wrong-exception"):
+            key = self.ctxkey
         if key in self.vkeys:
             return
         self.vkeys.add(key)
@@ -219,10 +225,22 @@ class Driver:
                 else:
                     self.destroyed_twice.append(iid)
                 destroyed.append(iid)
+        for iid in created:
+            # a sub-object registered by a base-class constructor is merged into the complete object's id
+            if iid in self.live and not self.lib.vf_iid_live(iid):
+                del self.live[iid]
         return ev, created, destroyed
 
     def iid(self, w):
         return self.lib.vf_iid(ctypes.c_void_p(w.this))
+
+    def pending(self):
+        """an exception left set by a wrapper that nevertheless returned normally (cleared here)"""
+        try:
+            ctypes.pythonapi.PyErr_Occurred()      # a PyDLL call raises whatever exception is pending
+        except BaseException as ex:                # noqa
+            return type(ex).__name__
+        return None
 
     def state(self, q, w):
         f = self.statefn.get(q)
@@ -280,9 +298,11 @@ class Driver:
             self.features.add("name:" + kind)
             kw = cpp in PY_KEYWORDS
             if not self.has_name(owner, a, own_dict):
+                self.missing.add((where, cpp))
                 self.bad(f"name-missing:kind={kind},alias={'keyword' if kw else 'cpp'}", entity=where + cpp, expected=a,
                          present=[n for n in dir(owner) if cpp.strip('_').lower() in n.lower()][:6])
             elif b != a and not self.has_name(owner, b, own_dict):
+                self.missing.add((where, cpp))
                 self.bad(f"name-missing:kind={kind},alias=camel", entity=where + cpp, expected=b)
         for c in self.m["classes"]:
             try:
@@ -316,6 +336,8 @@ class Driver:
                 if not self.has_name(pc, s["name"]):
                     self.bad("name-missing:kind=seq-property,alias=cpp", entity=s["qname"])
             for mm in c["members"]:
+                if mm["array"]:
+                    continue      # arrays of simple types have no representation in this back-end (no wrapper is generated)
                 self.count("names_checked")
                 kind = "static-member" if mm["static"] else "array-member" if mm["array"] else "const-member" if mm["const"] else "member"
                 self.features.add("name:" + kind)
@@ -454,9 +476,9 @@ class Driver:
                 return "maybe"
             return "no"
         if k == "float":
-            if c == "float":
-                return "yes"
-            if c in ("int", "bool", "obj", "enum"):
+            if c in ("float", "bool"):
+                return "yes"      # bool: not a listed correspondence -> never preferred, never excluded
+            if c in ("int", "obj", "enum"):
                 return "maybe"
             return "no"
         if k in ("string", "cstr"):
@@ -624,7 +646,8 @@ class Driver:
                     out.append(0)
             return out
         # const / non-const pairs: a non-const receiver selects the non-const member
-        if recv is not None and not recv.const:
+        if recv is not None and not recv.const and not any(f.get("operator") in ("[]", "[]c") for f, _ in cands):
+            # (operator []: the non-const int& member only serves item assignment in Python; reads may use either)
             keep = []
             for f, s in cands:
                 twin = any(g is not f and not g.get("const") and f.get("const") and
@@ -676,31 +699,84 @@ class Driver:
         pykw = {k: a.py() for k, a in kw.items()}
         self.trace()
         exc = None
+        excmsg = ""
         res = None
+        pend = None
         try:
-            res = invoke(pyargs, pykw)
-        except Exception as ex:      # noqa: any exception type is data here
-            exc = type(ex).__name__
-            excmsg = str(ex)[:200]
-        del pyargs, pykw
+            try:
+                res = invoke(pyargs, pykw)
+            except Exception as ex:      # noqa: any exception type is data here
+                exc = type(ex).__name__
+                excmsg = str(ex)[:200]
+            # a wrapper that returned normally but left an exception set: it surfaces at the next dictionary lookup
+            pyargs = pykw = None
+            pend = self.pending()
+        except BaseException as ex:      # noqa
+            if exc is None:
+                pend = type(ex).__name__
+            else:
+                raise
         ev, created, destroyed = self.trace()
         self.count("calls")
         self.count("calls_" + mode)
-        main = [(eid, fl, l) for eid, fl, l in ev if eid not in self.copy_eids]
+        own_eids = {f["eid"] for f in fns}
+        main = [(eid, fl, l) for eid, fl, l in ev if eid not in self.copy_eids or eid in own_eids]
+        # implementation temporaries: a default-constructed local for a coercible parameter class (constructed and
+        # destroyed inside the call), and size() consulted by the sequence protocol before operator []
+        tol = []
+        for e in list(main):
+            eid, fl, l = e
+            cf_ = self.ctor_eids.get(eid)
+            if cf_ is not None and not cf_["params"]:
+                ti = int(fl.get("this", 0))
+                if ti in created and ti in destroyed:
+                    main.remove(e)
+                    tol.append(e)
+                    self.count("coercion_temporaries")
+            elif eid in self.size_eids and fns[0].get("operator") in ("[]", "[]c") and eid not in own_eids:
+                main.remove(e)
         kindsig = g["kind"] + ("-static" if fns[0].get("static") else "")
         argcats = ",".join([a.cat() for a in args] + [k_ + "=" + a.cat() for k_, a in sorted(kw.items())]) if not kw else \
             ",".join([a.cat() for a in args] + ["kw=" + a.cat() for _, a in sorted(kw.items())])
+        if pend and exc is None:
+            why = "args=" + argcats
+            for f_, st_, sl_ in sts:
+                if st_ == "oor":
+                    for s_, p_ in zip(sl_, f_["params"]):
+                        if s_ is not None and self.acc(s_, p_["type"]) == "oor":
+                            why = f"param={tkind(p_['type'])},arg=int-out-of-range"
+            self.bad(f"returned-with-exception-set:exc={pend}:{why}", call=callsig,
+                     trace=[l for _, _, l in ev][:4], returned=repr(res)[:60])
+            res = None
+            gc.collect()
+            ev2, c2, d2 = self.trace()
+            destroyed += d2
+            exc = pend
+            main = []        # already reported; the body-ran rule would only repeat it
         # ---- rule for every call: an exception means no body ran, and nothing changed
         if exc is not None:
             if main:
-                f_ran = next((f for f in fns if f["eid"] == main[0][0]), None)
-                self.bad(f"body-ran-but-raised:exc={exc}:kind={kindsig}:params=" +
-                         (",".join(tkind(p["type"]) for p in f_ran["params"]) if f_ran else "?") + ":args=" + argcats,
-                         call=callsig, exc=excmsg, trace=[l for _, _, l in ev][:6])
+                f_ran = next((f for f in self.all_fns() if f["eid"] == main[0][0]), None)
+                why = "?"
+                sl_ = self.bind(f_ran, args, kw) if f_ran and f_ran in fns else None
+                if sl_:
+                    for s_, p_ in zip(sl_, f_ran["params"]):
+                        if s_ is not None and self.acc(s_, p_["type"]) != "yes":
+                            why = f"param={tkind(p_['type'])},arg={'int-out-of-range' if self.acc(s_, p_['type']) == 'oor' else s_.cat() if s_.c != 'junk' else s_.extra}"
+                            break
+                elif f_ran is not None and f_ran.get("kind") == "ctor":
+                    why = "coercion-constructor:" + ",".join(tkind(p["type"]) for p in f_ran["params"])
+                self.bad(f"body-ran-but-raised:exc={exc}:{why}", call=callsig, exc=excmsg, trace=[l for _, _, l in ev][:6])
             for t, st in snap:
                 if self.state(t.cls, t.w) != st and not main:
                     self.bad(f"state-changed-on-error:kind={kindsig}", call=callsig)
         # ---- ledger for this call
+        if mode == "negative" and exc is None and res is not None:
+            # a malformed call that succeeded (reported below): whatever it returned is dropped before the ledger is read
+            res = None
+            gc.collect()
+            ev2, c2, d2 = self.trace()
+            destroyed += d2
         leaked = [i for i in created if i in self.live]
         result_tr = None
         if mode == "negative":
@@ -719,7 +795,7 @@ class Driver:
                 if exc == "IndexError" and g["kind"] == "op":
                     pass
                 elif exc not in want:
-                    self.bad(f"wrong-exception:got={exc},want={want[0]}:kind={kindsig}:args={argcats}", call=callsig, exc=excmsg)
+                    self.bad(f"wrong-exception:got={exc},want={want[0]}:{self.neg_reason(sts, args, kw, recv, params_only=True)}", call=callsig, exc=excmsg)
         elif mode == "positive":
             exp_eids = set()
             for f, sl in cands:
@@ -735,12 +811,16 @@ class Driver:
                     # keyword arguments are a Python-side extension: a wrapper may decline them
                     self.count("keyword_calls_declined")
                 else:
-                    self.bad(f"positive-rejected:exc={exc}:kind={kindsig}:params={psig}" + (":kw" if kw else "") +
-                             self.special(f0, sl0), call=callsig, exc=excmsg)
+                    sp = self.special(f0, sl0)
+                    if sp:
+                        self.bad(f"positive-rejected:exc={exc}{sp}", call=callsig, exc=excmsg)
+                    else:
+                        self.bad(f"positive-rejected:exc={exc}:kind={kindsig}:params={psig}" + (":kw" if kw else ""),
+                                 call=callsig, exc=excmsg)
             elif len(main) != 1 or main[0][0] not in exp_eids:
                 ran = [next((f for f in self.all_fns() if f["eid"] == e), None) for e, _, _ in main]
                 rans = ";".join(",".join(tcat(p["type"]) for p in f["params"]) if f else "?" for f in ran) or "nothing"
-                self.bad(f"wrong-overload:kind={kindsig},nargs={len(args) + len(kw)}:expected={','.join(tcat(p['type']) for p in f0['params'])}"
+                self.bad(f"wrong-overload:nargs={len(args) + len(kw)}:expected={','.join(tcat(p['type']) for p in f0['params'])}"
                          f":ran={rans}", call=callsig, expected_eids=sorted(exp_eids), trace=[l for _, _, l in ev][:6])
             else:
                 eid, fl, line = main[0]
@@ -755,6 +835,13 @@ class Driver:
                         self.bad(f"this-mismatch:kind={kindsig}", call=callsig, expected=recv.iid, got=fl.get("this"))
                 for i, (s, p) in enumerate(zip(fsl, f["params"])):
                     exp = self.default_tok(p) if s is None else self.logtok(s, p["type"])
+                    saw = fl.get("a%d" % i)
+                    if saw != exp and s is not None and s.c == "obj" and s.t.const and saw and saw[0] == "o" and \
+                            saw[1:].isdigit() and int(saw[1:]) in created:
+                        # a const instance reached the body as a temporary copy instead of the object itself
+                        self.bad(f"const-argument-passed-as-copy:param={tkind(p['type'])}", call=callsig, expected=exp, body_saw=saw,
+                                 trace=[l2 for _, _, l2 in ev][:5])
+                        continue
                     if fl.get("a%d" % i) != exp:
                         self.bad(f"{'default' if s is None else 'arg'}-mismatch:param={tkind(p['type'])}" + (":kw" if kw else ""),
                                  call=callsig, index=i, expected=exp, body_saw=fl.get("a%d" % i))
@@ -799,16 +886,22 @@ class Driver:
     def special(self, f, slots):
         out = ""
         for s, p in zip(slots, f["params"]):
-            if s is not None and s.c == "enum" and s.v.value < 0:
-                out += ":enum-value-negative" if s.v.value != -1 else ":enum-value=-1"
+            if s is not None and s.c == "enum" and s.v.value == -1:
+                out = ":param=enum-scoped:enum-value=-1"
+                break
             if s is not None and s.c == "str" and p["type"]["k"] in ("string", "cstr") and any(ord(ch) > 127 for ch in s.v):
                 out += ":non-ascii"
         return out
 
-    def neg_reason(self, sts, args, kw, recv):
+    def neg_reason(self, sts, args, kw, recv, params_only=False):
         """finite description of why the call is malformed: (arg category -> parameter kind) of the first mismatch"""
         if all(sl is None for _, _, sl in sts):
             return f"count={len(args) + len(kw)}"
+        for f, st, sl in sts:
+            if st == "oor":
+                for s, p in zip(sl, f["params"]):
+                    if s is not None and self.acc(s, p["type"]) == "oor":
+                        return f"arg=int-out-of-range,param={tkind(p['type'])}"
         for f, st, sl in sts:
             if sl is None:
                 continue
@@ -816,6 +909,8 @@ class Driver:
                 return "const-this"
             for s, p in zip(sl, f["params"]):
                 if s is not None and self.acc(s, p["type"]) == "no":
+                    if params_only:
+                        return f"param={tkind(p['type'])}"
                     return f"arg={s.cat() if s.c != 'junk' else s.extra},param={tkind(p['type'])}"
         return "?"
 
@@ -999,6 +1094,8 @@ class Driver:
             return lambda a, k: fn(w, *a)
         if op == "neg":
             return lambda a, k: -w
+        if op == "len":
+            return lambda a, k: len(w)
         if op in ("[]", "[]c"):
             return lambda a, k: w.__getitem__(*a) if len(a) != 1 else w[a[0]]
         if op == "()":
@@ -1019,6 +1116,8 @@ class Driver:
         fns = g["fns"]
         recv = None
         dyn = None
+        if ((g["owner"] + "::") if g["owner"] and g["kind"] != "ctor" else "", g["name"]) in self.missing:
+            return None
         is_method = g["kind"] in ("method", "op") and not fns[0].get("static")
         if is_method:
             recv = self.receiver_for(g["owner"])
@@ -1065,15 +1164,15 @@ class Driver:
                 ndf = len([p for p in ff["params"] if p["default"] is not None])
                 allowed |= set(range(len(ff["params"]) - ndf, len(ff["params"]) + 1))
             wrong = [k for k in range(0, max(allowed) + 3) if k not in allowed]
-            if op in ("==", "!=", "<", "<=", ">", ">=", "+", "-", "*", "neg", "cast", "+=", "[]", "[]c"):
+            if op in ("==", "!=", "<", "<=", ">", ">=", "+", "-", "*", "neg", "cast", "+=", "[]", "[]c", "len"):
                 return None      # Python syntax fixes the count
             k = r.choice(wrong)
             while len(args) < k:
                 args.append(self.junk_arg() if r.random() < 0.3 else Arg("int", r.randint(-5, 5)))
             args = args[:k]
         elif how == "neg-type":
-            if not args:
-                return None
+            if not args or op in ("==", "!="):
+                return None      # Python itself falls back to identity comparison for == / !=
             i = r.randrange(len(args))
             args[i] = self.junk_arg()
         elif how == "neg-range":
@@ -1084,6 +1183,8 @@ class Driver:
             lo, hi = INT_RANGE[ps[i]["type"]["c"]]
             args[i] = Arg("int", r.choice([hi + 1, lo - 1, hi + 1, lo - 1, 2 ** 70, -2 ** 70, hi + 12345, lo - 2 ** 31]))
         elif how == "fuzz":
+            if op in ("==", "!="):
+                return None
             for i in range(len(args)):
                 if r.random() < 0.5:
                     args[i] = self.junk_arg()
@@ -1097,7 +1198,12 @@ class Driver:
             if self.resolve(g, recv) is not g:
                 return None
             dyn = self.live.get(recv.iid)
-        if op in ("neg", "cast") and args:
+        # an integer that is no member of an unscoped enum is undefined behaviour in C++ itself: never generated
+        for i, (p, a) in enumerate(zip(ps, args)):
+            if p["type"]["k"] == "enum" and not p["type"].get("scoped") and a.c in ("int", "bool", "float") and \
+                    self.acc(a, p["type"]) != "yes":
+                args[i] = self.good_arg(p["type"])
+        if op in ("neg", "cast", "len") and (args or kw):
             return None
         if op in ("==", "!=", "<", "<=", ">", ">=", "+", "-", "*", "+=", "[]", "[]c") and (len(args) != 1 or kw):
             return None
@@ -1105,14 +1211,24 @@ class Driver:
             return None          # sequence protocol: Python bounds-checks before the body (IndexError), nothing to judge
         if op == "+=" and recv is not None and recv.const:
             return None
+        self.ctxkey = None
+        if op in CMP_OPS and recv is not None and (g["owner"] != recv.cls or any(
+                a.c == "obj" and a.t.cls != recv.cls and self.isa(a.t.cls, recv.cls) for a in args)):
+            # the rich-compare slot of a Python type is one function: a class that declares a comparison operator of
+            # its own, or whose first base has none, does not reach the comparison operators it inherits in C++
+            # (Python also asks the more derived operand first)
+            self.ctxkey = "inherited-comparison-lost"
         alias = r.randrange(2) if g["kind"] in ("free", "method") else 0
         what = g["name"] if g["kind"] != "ctor" else g["name"]
         inv = self.invoker(g, recv, alias)
-        if recv is not None and fns[0].get("static"):
-            # static through an instance: no `this`
-            tr, exc = self.call(g, None, args, kw, inv, what, None)
-        else:
-            tr, exc = self.call(g, recv, args, kw, inv, what, dyn)
+        try:
+            if recv is not None and fns[0].get("static"):
+                # static through an instance: no `this`
+                tr, exc = self.call(g, None, args, kw, inv, what, None)
+            else:
+                tr, exc = self.call(g, recv, args, kw, inv, what, dyn)
+        finally:
+            self.ctxkey = None
         return tr
 
     # ------------------------------------------------------------------ properties, members, sequences, item assignment
